@@ -174,6 +174,7 @@ var ctypes = []string{
 	"application/x-www-form-urlencoded", "application/x-www-form-urlencoded; charset=UTF-8", "Application/X-WWW-Form-Urlencoded",
 	"multipart/form-data; boundary=XBOUNDX", "multipart/form-data", "Multipart/Form-Data; boundary=XBOUNDX", "multipart/form-data;boundary=XBOUNDX",
 	"multipart/mixed; boundary=XBOUNDX", "text/plain", "", ";", " ", "/", "application/", "json", "application/json\t", "application/xml+json",
+	"application/x y+json", "application/json x+y", "text/x+xml y", "application/x+json y", "a b+json", "application/ld+json ; v=1", "application/a+b+json",
 }
 
 // normKey mirrors the bracket normalisation only to keep generated multipart names apart
@@ -201,6 +202,19 @@ func normKey(k string) (string, bool) {
 		}
 	}
 	return b.String(), open == 0
+}
+
+var ctypePieces = []string{"application/", "text/", "multipart/", "json", "xml", "cbor", "form-data", "x-www-form-urlencoded",
+	"vnd.api", "+", "+", ";", ";", " ", " ", "/", "charset=utf-8", "boundary=XBOUNDX", "x", "JSON", "=", "\t", ",", "."}
+
+// randCtype glues content-type pieces together: '+', ';', ' ' and '/' in every relative order
+// (vendor suffix before/after parameters, blanks inside the media type, several '+' …).
+func randCtype(r *gen.Rand) string {
+	var b strings.Builder
+	for i := 1 + r.Intn(7); i > 0; i-- {
+		b.WriteString(gen.Pick(r, ctypePieces))
+	}
+	return b.String()
 }
 
 func multipartBody(r *gen.Rand) string {
@@ -299,6 +313,9 @@ func genRaw(w *gen.Writer, r *gen.Rand, id string, split, auto bool) {
 		emitRaw(w, id, "cookie", split, auto, target, "", c, nil)
 	default:
 		ct := gen.Pick(r, ctypes)
+		if r.Chance(1, 5) {
+			ct = randCtype(r)
+		}
 		var body string
 		v := genValue(r, "json", false)
 		fixValue(v, "xml")
